@@ -232,8 +232,15 @@ func (p *pathCtx) reschedule() {
 		next = runnable[0]
 	} else if cur.state == tRunnable && p.ex.cfg.Preempt >= 0 && p.preemptions >= p.ex.cfg.Preempt {
 		next = cur
+	} else if p.ex.cfg.Delays >= 0 && p.delays >= p.ex.cfg.Delays {
+		// delay bound used up: the canonical choice (continue, else the lowest thread id)
+		next = runnable[0]
 	} else {
-		next = runnable[p.choose(len(runnable), "sched")]
+		k := p.choose(len(runnable), "sched")
+		next = runnable[k]
+		if k > 0 {
+			p.delays++
+		}
 		if cur.state == tRunnable && next != cur {
 			p.preemptions++
 		}
@@ -252,11 +259,18 @@ func (p *pathCtx) reschedule() {
 }
 
 func (p *pathCtx) deadlockOutcome(stuck []string) {
+	tickHang := false
 	// a goroutine waiting for a tick beyond the tick bound is a truncated exploration, not a hang
 	for _, t := range p.threads {
 		if t.state == tBlocked && t.pend != nil {
 			for _, c := range t.pend.cases {
 				if c.ch != nil && c.ch.ticker && !c.ch.stopped && c.ch.ticksLeft <= 0 {
+					if p.ex.cfg.Params["TICKHANG"] == 1 {
+						// the plan declares the program's timers periodic housekeeping: a state in which
+						// nothing but further ticks can happen, after the tick bound, is a hang
+						tickHang = true
+						continue
+					}
 					atomic.AddInt64(&p.ex.truncated, 1)
 					p.finish(pathAbort{"stop", fmt.Sprintf("tick bound reached; blocked: %v", stuck)})
 					return
@@ -272,6 +286,9 @@ func (p *pathCtx) deadlockOutcome(stuck []string) {
 	if r == Sat {
 		st.Violated++
 		p.notes = append(p.notes, fmt.Sprintf("blocked forever: %v", stuck))
+		if tickHang {
+			p.notes = append(p.notes, "only periodic timer ticks remain possible (tick bound delivered)")
+		}
 		p.violation(site, fmt.Sprintf("deadlock/hang: all goroutines blocked: %v", stuck), m)
 	} else if r == Unknown {
 		st.Unknown++
